@@ -62,6 +62,23 @@ def _raiser(m):
     return m.split_tuples(m.inlined(m.func(RAISER), exclude=(CASCADE.split(".")[-1],)))
 
 
+def _arm_aliases(body):
+    """names an arm gives to operands: `a, b = X.children` / `b = X.children[1]`"""
+    alias = {}
+    for st in body:
+        if isinstance(st, ast.Assign) and len(st.targets) == 1:
+            t, v = st.targets[0], st.value
+            if isinstance(t, ast.Tuple) and all(isinstance(e, ast.Name) for e in t.elts) \
+                    and isinstance(v, ast.Attribute) and v.attr == "children":
+                for i, e in enumerate(t.elts):
+                    alias[e.id] = f"{ast.unparse(v)}[{i}]"
+            elif isinstance(t, ast.Name) and isinstance(v, ast.Subscript) \
+                    and isinstance(v.value, ast.Attribute) and v.value.attr == "children" \
+                    and isinstance(v.slice, ast.Constant):
+                alias[t.id] = ast.unparse(v)
+    return alias
+
+
 def _branches(fd):
     """(test, body) for every if/elif arm in fd"""
     for n in ast.walk(fd):
@@ -237,6 +254,21 @@ def r_order(c):
                 and has(test, f"isinstance({var}, p.Sum)"):
             ok = has(ast.Module(body=list(body), type_ignores=[]),
                      f"$ch = ({var}.children[0], {var}.children[1].children[1])")
+            if not ok:
+                # the same pair through names the arm gives to the operands
+                # (`a, nb = X.children` ... (a, nb.children[1]))
+                alias = _arm_aliases(body)
+
+                def full(e):
+                    class S_(ast.NodeTransformer):
+                        def visit_Name(self, x):
+                            return ast.parse(alias[x.id], mode="eval").body \
+                                if x.id in alias else x
+                    import copy
+                    return ast.unparse(S_().visit(copy.deepcopy(e)))
+                want = [f"{var}.children[0]", f"{var}.children[1].children[1]"]
+                ok = any(isinstance(t, ast.Tuple) and [full(e) for e in t.elts] == want
+                         for st in body for t in ast.walk(st))
     c.check(ok, "R19-ORDER", "index_lambda_to_high_level_op", "SUB:(minuend, subtrahend)",
             m.loc(m.module_of(fd), fd),
             "the a + (-1)*b pattern no longer yields (a, b) under the test that the "
@@ -445,11 +477,15 @@ def r_patterns(c):
     for test, body in _branches(fd):
         tsrc = ast.unparse(test)
         nodes = [test] + list(body)
+        alias = _arm_aliases(body)
         for nd in nodes:
             for sub in ast.walk(nd):
                 if isinstance(sub, ast.Subscript) and isinstance(sub.value, ast.Attribute) \
                         and sub.value.attr == "children" and isinstance(sub.slice, ast.Constant):
                     base = ast.unparse(sub.value)
+                    root = sub.value.value
+                    if isinstance(root, ast.Name) and root.id in alias:
+                        base = alias[root.id] + ".children"
                     k = sub.slice.value
                     n += 1
                     import re
@@ -519,9 +555,28 @@ def r_patterns(c):
     tbl = find(a, f"$t = {{$k: p.Subscript(p.Variable($k), get_indexing_expression($b.shape, {osn}))"
                   f" for $k, $b in {bn}.items()}}")
     # (the comparison is in the cascade or in a private helper that is handed the table)
-    c.check(len(tbl) == 1 and any(has(f, f"{t}[$e.aggregate.name] == $e")
-                                  or has(f, f"$e == {t}[$e.aggregate.name]")
-                                  for f, t in m.handed_to(a, tbl[0]['$t'])),
+    consulted = len(tbl) == 1 and any(has(f, f"{t}[$e.aggregate.name] == $e")
+                                      or has(f, f"$e == {t}[$e.aggregate.name]")
+                                      for f, t in m.handed_to(a, tbl[0]['$t']))
+    if not tbl:
+        # the table written (or filled by a loop) where it is handed to the helper:
+        # on the normal form it is an argument of the call
+        nf = m.normal(a)
+        callees = {f.name: f for f in m.private_callees(a)}
+        for call in ast.walk(nf):
+            if not (isinstance(call, ast.Call) and isinstance(call.func, ast.Name)
+                    and call.func.id in callees):
+                continue
+            bind = m._bind_args(call, callees[call.func.id]) or {}
+            for q, e in bind.items():
+                if find(e,
+                        f"{{$k: p.Subscript(p.Variable($k), get_indexing_expression($b.shape, "
+                        f"{osn})) for $k, $b in {bn}.items()}}"):
+                    f_ = callees[call.func.id]
+                    consulted = has(f_, f"{q}[$e.aggregate.name] == $e") \
+                        or has(f_, f"$e == {q}[$e.aggregate.name]")
+                    tbl = [{"$t": q}]
+    c.check(len(tbl) == 1 and consulted,
             "R19-PATTERN",
             "_as_array_or_scalar", "operand-only-through-exact-broadcast-subscript",
             m.loc(m.module_of(a), a),
